@@ -249,12 +249,25 @@ func runOnce(p c16Params, env *runner.Env, res *runner.Result) {
 		delete(mustMerge, cleanedInst)
 	}
 	loop := sched.Start(x, s)
-	select {
-	case <-loop.Done():
-	case <-time.After(30 * time.Second):
-		loop.Stop(5 * time.Second)
-		res.Violate("runonce-did-not-end", "Sync with only_once did not return by itself within 30 s", map[string]any{"params": p, "events_tail": s.Tail(50), "names": b.Names()})
-		return
+	// logical bound: a run-once Sync that is still iterating after 3000 loop iterations (1 ms poll interval; a correct
+	// run needs a few dozen) does not end by itself; the wall-clock watchdog only yields "inconclusive"
+	wdog := time.Now().Add(120 * time.Second)
+	for ended := false; !ended; {
+		select {
+		case <-loop.Done():
+			ended = true
+		case <-time.After(20 * time.Millisecond):
+			if n := s.Count("a", "loop.end", 0); n > 3000 {
+				loop.Stop(5 * time.Second)
+				res.Violate("runonce-did-not-end", fmt.Sprintf("Sync with only_once is still running after %d loop iterations", n), map[string]any{"params": p, "events_tail": s.Tail(50), "names": b.Names()})
+				return
+			}
+			if time.Now().After(wdog) {
+				loop.Stop(5 * time.Second)
+				res.Verdict, res.Msg = runner.Inconclusive, "run-once Sync neither ended nor reached the iteration bound within the watchdog"
+				return
+			}
+		}
 	}
 	serr, crashed, _ := loop.Result()
 	res.Count("runonce_scenarios", 1)
@@ -388,7 +401,7 @@ func runClimit(p c16Params, res *runner.Result) {
 					}()
 					select {
 					case <-relDone:
-					case <-time.After(2 * time.Second):
+					case <-time.After(20 * time.Second): // Release never waits for anybody: 20 s is a watchdog, not a measure
 						atomic.AddInt32(&blockedReleases, 1)
 						<-relDone
 					}
@@ -442,7 +455,7 @@ func runClimit(p c16Params, res *runner.Result) {
 		return
 	}
 	if n := atomic.LoadInt32(&blockedReleases); n > 0 {
-		res.Violate("release-blocked", fmt.Sprintf("%d Release calls blocked for more than 2 s", n), nil)
+		res.Violate("release-blocked", fmt.Sprintf("%d Release calls had not returned after 20 s", n), nil)
 	}
 	// all tokens back: limit acquires succeed without blocking
 	done := make(chan struct{})
